@@ -227,3 +227,25 @@ def yields_each_of(ctx, func):
         if (mn, mx) == (1, 1) and len(others) == 1:
             return norm(st.iter)
     return None
+
+
+def writer_functions(ctx, words, exclude=()):
+    """the text writers: functions whose name contains one of `words` plus the private helpers (name starting
+    with `_`) they reach through calls on self or to module-level functions - a writer split into helper
+    generators / row formatters is still one writer"""
+    m = ctx.model
+    prog = ctx.program
+    base = [f for f in m.all_funcs() if any(w in f.name for w in words) and f.name not in exclude]
+    seen = {f.qual: f for f in base}
+    todo = list(base)
+    while todo:
+        f = todo.pop()
+        for ed in prog.edges.get(f.qual, []):
+            g = ed.callee
+            if ed.kind not in ('call', 'getter') or g.qual in seen or not g.name.startswith('_') or g.name.startswith('__'):
+                continue
+            if g.cls is not None and f.cls is not None and g.cls not in f.cls.mro and f.cls not in g.cls.mro:
+                continue
+            seen[g.qual] = g
+            todo.append(g)
+    return list(seen.values())
